@@ -209,4 +209,5 @@ func (ft *ftrans) assignScalar(s ast.Stmt, lhs ast.Expr, rhs, typ string, def bo
 		p.failAt(s, "%s: assignment to %s: unknown variable or type mismatch", ft.sum.key, id.Name)
 	}
 	ft.line(e, "let "+v.name+" := "+rhs+" in")
+	ft.noteScalarWrite(e, v)
 }
